@@ -6,7 +6,25 @@ FIELDS = list(MSG)
 SAME = " and ".join(f"result.{f} == self.{f}" for f in FIELDS if f != "channel")
 
 contract("Message.copy", params={"self": "ref:Message"}, result="ref:Message", allocates=True,
-         ensures=[("fresh", "fresh(result) and not is_none(result)"),
+         ensures=[("fresh", "fresh(result) and not is_none(result) and allocated(result)"),
                   ("fields_equal", SAME),
                   ("channel", "not is_none(result.channel) and implies(not is_none(self.channel), result.channel == self.channel) and implies(is_none(self.channel), result.channel == 0)")],
+         props=["C16", "C04"])
+
+# ---------------------------------------------------------------- AbstractSequence.copy  (C16)
+from .macros import *
+CP = "_comp0"
+SAMEF = lambda a, b: " and ".join(f"{a}.{f} == {b}.{f}" for f in FIELDS if f != "channel") + f" and implies(not is_none({b}.channel), {a}.channel == {b}.channel) and not is_none({a}.channel)"
+contract("AbstractSequence.copy", params={"self": "ref:AbstractSequence"}, result="ref:AbstractSequence", allocates=True,
+         requires=[],
+         ensures=[("fresh", f"not is_none(result) and fresh(result) and fresh(result._messages) and result._messages != {M} and forall(0, len(result._messages), lambda j: fresh(result._messages[j]))"),
+                  ("same_length", f"len(result._messages) == len({M})"),
+                  ("same_content", f"forall(0, len({M}), lambda j: {SAMEF('result._messages[j]', M + '[j]')})"),
+                  ("distinct", "distinct(result._messages)"),
+                  ("source_untouched", f"len({M}) == old(len({M})) and forall(0, len({M}), lambda j: {M}[j] == old({M}[j]))")],
+         loops={"L0": dict(fingerprint="for msg in self._messages", inv=[
+             ("len", f"len({CP}) == i and fresh({CP}) and {CP} != {M}"),
+             ("fresh", f"forall(0, i, lambda j: fresh({CP}[j]) and allocated({CP}[j]))"),
+             ("content", f"forall(0, i, lambda j: {SAMEF(CP + '[j]', M + '[j]')})"),
+             ("distinct", f"distinct({CP})")])},
          props=["C16", "C04"])
